@@ -37,6 +37,7 @@ EXPLANATION = (
     ' (V7) every default of the confidence threshold is 0 (Balancer constructor, run command line); (V8) after the MCS stage an issue is written only to rows that are unsolved or demoted in the same branch; V1 judges a restore of saved text like the writer whose text it saved.'
     ' (V9/V10) the carbon label is computed on self-contained fragments, as a sum over every component (shared with C07-E12/E6).'
     " (V11) the command line does not append result chunks under an earlier chunk's column layout (shared with C06-B10). (V12) the handlers that turn a per-reaction fault into the row's issue text include a catch-all (shared with C06-B14)."
+    ' (V14) a result record built outside the pipeline with solved=False carries an issue text that cannot be empty (never the bare message of an exception).'
 )
 ASSUMPTIONS = [
     "rows do not pre-populate the tool's own output columns (precondition of the property)",
